@@ -195,6 +195,8 @@ def in_domain(source: str) -> bool:
 				depth += 1
 			elif string in ')]}':
 				depth -= 1
+				if depth < 0:
+					return False
 		else:
 			return False
 		if prev is not None and prev[3] == start and prev[1] != '-' and need_space(prev[1], string):
@@ -203,6 +205,8 @@ def in_domain(source: str) -> bool:
 			pass
 		prev = (typ, string, start, end)
 	if prev is not None and prev[1] == '-':
+		return False
+	if depth != 0:
 		return False
 	# a '-' directly followed by a line end inside brackets is a blank-after-minus case: fine
 	return '\\' not in _strip_strings(source, toks)
